@@ -47,6 +47,51 @@ theorem eq_of_fst_eq {σ τ : Type} : ∀ (l : List (σ × τ)), (l.map Prod.fst
     · exact absurd (List.mem_map.mpr ⟨a, ha', hab⟩) hn.1
     · exact ih hn.2 a ha' b hb' hab
 
+theorem counters_get_after (rngs : Keys) (hn : (rngs.map Prod.fst).Nodup) (f : String → Nat) (n : String)
+    (hmem : n ∈ rngs.map Prod.fst) :
+    ScopeCounters.get (rngs.map fun e => (e.1, f e.1)) n = f n := by
+  induction rngs with
+  | nil => cases hmem
+  | cons e r ih =>
+    simp only [List.map_cons, List.nodup_cons] at hn
+    simp only [ScopeCounters.get, List.map_cons, List.find?_cons]
+    by_cases h : e.1 = n
+    · simp [h]
+    · have : n ∈ r.map Prod.fst := by
+        rcases List.mem_cons.mp hmem with h1 | h1
+        · exact absurd h1.symm h
+        · exact h1
+      simp only [h, decide_false]
+      exact ih hn.2 this
+
+/-- the `k`-th call (from fresh counters) reseeds stream `n` with `make_rng` key number `k` -/
+theorem callKeyDicts_spec (path : Path) (rngs : Keys) (hn : (rngs.map Prod.fst).Nodup) :
+    ∀ (m : Nat) (c : ScopeCounters) (base : Nat), (∀ n ∈ rngs.map Prod.fst, c.get n = base) →
+    callKeyDicts path rngs m c =
+      (List.range m).map fun k => rngs.map fun e => (e.1, KeyT.linen (.base e.2) path (base + k)) := by
+  intro m
+  induction m with
+  | zero => intro c base _; rfl
+  | succ m ih =>
+    intro c base hc
+    rw [callKeyDicts, List.range_succ_eq_map, List.map_cons, List.map_map]
+    have h1 : (linenRngsDictC path rngs c).1 = rngs.map fun e => (e.1, KeyT.linen (.base e.2) path (base + 0)) := by
+      simp only [linenRngsDictC, Nat.add_zero]
+      apply List.map_congr_left
+      intro e he
+      rw [hc e.1 (List.mem_map.mpr ⟨e, he, rfl⟩)]
+    rw [h1, ih (linenRngsDictC path rngs c).2 (base + 1) (by
+      intro n hmem
+      simp only [linenRngsDictC]
+      rw [counters_get_after rngs hn (fun n => c.get n + 1) n hmem, hc n hmem])]
+    congr 1
+    apply List.map_congr_left
+    intro k _
+    simp only [Function.comp_apply]
+    apply List.map_congr_left
+    intro e _
+    congr 2; omega
+
 /-- the wrapper's `rngs` after `i` draws -/
 def Rngs.after (r : Rngs) : Nat → Rngs
   | 0 => r
